@@ -45,6 +45,9 @@ pub struct SchedSpec {
     pub op_step_bound: u64,
     /// starting value for the sequence counters of ring buffers built during the run
     pub origin: u32,
+    /// starting value for the counters of incremental-average metrics built during the run ("counter jump")
+    #[serde(default)]
+    pub metric_origin: u32,
 }
 
 impl SchedSpec {
@@ -70,6 +73,7 @@ impl SchedSpec {
             step_cap: 100_000,
             op_step_bound: 0,
             origin: 0,
+            metric_origin: 0,
         }
     }
     pub fn replaying(&self, script: Vec<u8>) -> Self {
@@ -616,6 +620,49 @@ fn hook_sleep(d: Duration) -> bool {
     }
 }
 
+/// `std::thread::sleep()` inside the code under test (the Arc Multi channels' wait for a full listener)
+fn hook_thread_sleep(d: Duration) -> bool {
+    let r = CTX.with(|c| {
+        let mut b = c.borrow_mut();
+        match b.as_mut() {
+            None => None,
+            Some(ctx) => {
+                ctx.sim_time_ns += d.as_nanos() as u64;
+                Some(ctx.mode)
+            }
+        }
+    });
+    match r {
+        None => false,
+        Some(Mode::Passive) => {
+            // single-threaded engines: nobody else can run while this thread sleeps, so a sleep-and-retry loop that does
+            // not end is a spin that does not end: simulated (no real sleep) and counted towards the spin verdict
+            let abort = with_ctx(|ctx| {
+                ctx.passive_spins += 2_000;
+                if ctx.passive_spins > 20_000 && ctx.aborted.is_none() {
+                    ctx.aborted = Some("passive_spin: a single-threaded history sleeps and retries forever (std::thread::sleep seam)".to_string());
+                    true
+                } else {
+                    false
+                }
+            })
+            .unwrap_or(false);
+            if abort {
+                abort_now();
+            }
+            true
+        }
+        Some(Mode::Threads) => {
+            hook_spin_hint(Location::caller());
+            true
+        }
+    }
+}
+
+fn hook_metric_origin() -> u32 {
+    with_ctx(|ctx| ctx.spec.metric_origin).unwrap_or(0)
+}
+
 fn hook_region(event: u8, id: u64, what: &'static str) {
     with_ctx(|ctx| match event {
         0 => {
@@ -643,6 +690,8 @@ pub fn install_hooks() {
             sequence_origin: hook_sequence_origin,
             sleep: hook_sleep,
             region: hook_region,
+            thread_sleep: hook_thread_sleep,
+            metric_origin: hook_metric_origin,
         });
         // shuttle installs its own (noisy) panic hook on its first execution, once: trigger that now, then replace it
         {
